@@ -5,7 +5,9 @@
           payload only) must violate SoundRead.
 2. Cases: the harness writes real images with the real WalWriter, applies every cut length,
           bit flips, bursts, zero fills and zero extensions, and reads them back with the real
-          recover_all_entries / recover_entries_after; truncate_before over every stamp layout.
+          recover_all_entries / recover_entries_after; truncate_before over every stamp layout;
+          one file of an intact image unreadable (I/O error on open or on read); entries of 1 MiB
+          to beyond 64 MiB intact, with a damaged tail, and around truncation.
 3. TV   : WalFormatTrace judges each record with the layout arithmetic of WalFormat.tla.
 """
 import os
